@@ -17,26 +17,58 @@ type namedString string
 
 // ---- destinations ----
 
-// recWriter is a runtime.CSVWriter: like csv.Writer it does not retain the slice it is handed.
+// recWriter is a runtime.CSVWriter. Like csv.Writer it does not retain the slice it is handed, unless
+// retain is set: then it keeps the very slices the codec passes to Write (a collecting writer).
+//
+// With sc.Fault the write that carries record number sc.ErrAt (0-based) fails: Write returns the error
+// and keeps failing (as csv.Writer does once its underlying writer failed), or - with sc.ErrData - Write
+// keeps returning nil, drops the record and the following ones, and only Error() reports the failure
+// (as csv.Writer does for what is still in its buffer).
 type recWriter struct {
 	records                [][]string
 	flushes, flushedAt     int
 	errorCalls, writeCalls int
+	retain                 bool
+	sc                     Script
+	failed                 bool
 }
 
 func (w *recWriter) Write(rec []string) error {
 	w.writeCalls++
+	if !w.failed && w.sc.Fault && len(w.records) >= w.sc.ErrAt {
+		w.failed = true
+	}
+	if w.failed {
+		if w.sc.ErrData {
+			return nil
+		}
+		return errInjected
+	}
+	if w.retain {
+		w.records = append(w.records, rec)
+		return nil
+	}
 	w.records = append(w.records, append([]string(nil), rec...))
 	return nil
 }
-func (w *recWriter) Flush()       { w.flushes++; w.flushedAt = len(w.records) }
-func (w *recWriter) Error() error { w.errorCalls++; return nil }
+func (w *recWriter) Flush() { w.flushes++; w.flushedAt = len(w.records) }
+func (w *recWriter) Error() error {
+	w.errorCalls++
+	if w.failed {
+		return errInjected
+	}
+	return nil
+}
 
 type wDest struct{ w *sWriter }
 
 func (d wDest) Write(p []byte) (int, error) { return d.w.Write(p) }
 
-type rfDest struct{ stored []byte }
+// rfDest is an io.ReaderFrom; with fail it reports an error after draining the reader.
+type rfDest struct {
+	stored       []byte
+	fail, failed bool
+}
 
 func (d *rfDest) ReadFrom(r io.Reader) (int64, error) {
 	buf := make([]byte, 7)
@@ -46,6 +78,10 @@ func (d *rfDest) ReadFrom(r io.Reader) (int64, error) {
 		d.stored = append(d.stored, buf[:n]...)
 		total += int64(n)
 		if err == io.EOF {
+			if d.fail {
+				d.failed = true
+				return total, errInjected
+			}
 			return total, nil
 		}
 		if err != nil {
@@ -55,22 +91,37 @@ func (d *rfDest) ReadFrom(r io.Reader) (int64, error) {
 	return total, errors.New("rfDest: no progress")
 }
 
-type buDest struct{ stored []byte }
+// buDest is an encoding.BinaryUnmarshaler; with fail it rejects what it is given.
+type buDest struct {
+	stored       []byte
+	fail, failed bool
+}
 
 func (d *buDest) UnmarshalBinary(b []byte) error {
+	if d.fail {
+		d.failed = true
+		return errInjected
+	}
 	d.stored = append([]byte(nil), b...)
 	return nil
 }
 
 // ---- sources ----
 
-// recReader is a runtime.CSVReader over a record table.
+// recReader is a runtime.CSVReader over a record table; with sc.Fault the read that would deliver record
+// number sc.ErrAt (or the end of the table) fails instead.
 type recReader struct {
 	records [][]string
 	i       int
+	sc      Script
+	failed  bool
 }
 
 func (r *recReader) Read() ([]string, error) {
+	if r.failed || (r.sc.Fault && r.i >= r.sc.ErrAt) {
+		r.failed = true
+		return nil, errInjected
+	}
 	if r.i >= len(r.records) {
 		return nil, io.EOF
 	}
@@ -124,14 +175,24 @@ func (s *wtSrc) WriteTo(w io.Writer) (int64, error) {
 	return total, nil
 }
 
-type bmSrc struct{ data []byte }
+// bmSrc is an encoding.BinaryMarshaler; with fail it has nothing to give but an error.
+type bmSrc struct {
+	data         []byte
+	fail, failed bool
+}
 
-func (s bmSrc) MarshalBinary() ([]byte, error) { return append([]byte(nil), s.data...), nil }
+func (s *bmSrc) MarshalBinary() ([]byte, error) {
+	if s.fail {
+		s.failed = true
+		return nil, errInjected
+	}
+	return append([]byte(nil), s.data...), nil
+}
 
 // ---- kind tables ----
 
 // Destination kinds of the consumer. "records" kinds receive records, "bytes" kinds CSV text.
-var destRecordKinds = []string{"csvwriter", "*[][]string", "*named-table", "*[]named-record", "*[][]named-field"}
+var destRecordKinds = []string{"csvwriter", "csvwriter-retaining", "*[][]string", "*named-table", "*[]named-record", "*[][]named-field"}
 var destByteKinds = []string{"*csv.Writer", "writer", "buffer", "readerfrom", "binunm", "*[]byte", "*named-bytes", "*string", "*named-string"}
 var destTableKinds = []string{"*[][]string", "*named-table", "*[]named-record", "*[][]named-field"}
 var destOtherKinds = []string{"nil", "[]byte", "[][]string", "string", "int", "*int", "*struct", "*[]string", "*[][]int", "*[][][]string", "map", "chan", "**[][]string"}
@@ -158,6 +219,7 @@ type dest struct {
 	rw       *recWriter
 	csvw     *csv.Writer
 	typedNil bool
+	faulted  func() bool // a fallible collaborator (CSVWriter, ReaderFrom, BinaryUnmarshaler) delivered its error
 }
 
 func preTable(n, cp int) [][]string {
@@ -214,9 +276,11 @@ func mkDest(kind string, preLen, preCap int, preText string, preNil bool, o Scri
 		d.sink = newWriter(o)
 		d.csvw = csv.NewWriter(d.sink)
 		d.v, d.bytes = d.csvw, func() []byte { return d.sink.buf }
-	case "csvwriter":
-		d.rw = &recWriter{}
-		d.v, d.records = d.rw, func() [][]string { return d.rw.records }
+	case "csvwriter", "csvwriter-retaining":
+		rw := &recWriter{sc: o, retain: kind == "csvwriter-retaining"}
+		d.rw = rw
+		d.v, d.records = rw, func() [][]string { return rw.records }
+		d.faulted = func() bool { return rw.failed }
 	case "writer":
 		d.sink = newWriter(o)
 		d.v, d.bytes = wDest{d.sink}, func() []byte { return d.sink.buf }
@@ -224,11 +288,13 @@ func mkDest(kind string, preLen, preCap int, preText string, preNil bool, o Scri
 		x := &bytes.Buffer{}
 		d.v, d.bytes = x, func() []byte { return x.Bytes() }
 	case "readerfrom":
-		x := &rfDest{}
+		x := &rfDest{fail: o.Fault}
 		d.v, d.bytes = x, func() []byte { return x.stored }
+		d.faulted = func() bool { return x.failed }
 	case "binunm":
-		x := &buDest{}
+		x := &buDest{fail: o.Fault}
 		d.v, d.bytes = x, func() []byte { return x.stored }
+		d.faulted = func() bool { return x.failed }
 	case "*[][]string":
 		if preNil {
 			d.v = (*[][]string)(nil)
@@ -337,9 +403,10 @@ func mkDest(kind string, preLen, preCap int, preText string, preNil bool, o Scri
 
 // source is one source handed to Produce.
 type source struct {
-	v  interface{}
-	rd *sReader
-	wt *wtSrc
+	v       interface{}
+	rd      *sReader
+	wt      *wtSrc
+	faulted func() bool // a fallible collaborator (CSVReader, BinaryMarshaler) delivered its error
 }
 
 func fromStrings(kind string, t [][]string) interface{} {
@@ -376,7 +443,8 @@ func mkSource(kind string, text []byte, table [][]string, o Script) (s source, o
 		s.rd = newReader(text, o)
 		s.v = csv.NewReader(s.rd)
 	case "csvreader":
-		s.v = &recReader{records: table}
+		x := &recReader{records: table, sc: o}
+		s.v, s.faulted = x, func() bool { return x.failed }
 	case "reader":
 		s.rd = newReader(text, o)
 		s.v = readerOnly{s.rd}
@@ -389,7 +457,8 @@ func mkSource(kind string, text []byte, table [][]string, o Script) (s source, o
 		s.wt = &wtSrc{data: text, sc: o}
 		s.v = s.wt
 	case "binm":
-		s.v = bmSrc{text}
+		x := &bmSrc{data: text, fail: o.Fault}
+		s.v, s.faulted = x, func() bool { return x.failed }
 	case "[]byte":
 		s.v = append([]byte{}, text...)
 	case "named-bytes":
